@@ -38,6 +38,7 @@ type testWriter struct {
 	kind   string
 	n      int
 	writes [][]byte
+	taken  []byte // the bytes the writer actually accepted
 }
 
 func (w *testWriter) Write(p []byte) (int, error) {
@@ -47,9 +48,11 @@ func (w *testWriter) Write(p []byte) (int, error) {
 		return 0, errors.New("write failed")
 	case "short":
 		if w.n < len(p) {
+			w.taken = append(w.taken, p[:w.n]...)
 			return w.n, nil
 		}
 	}
+	w.taken = append(w.taken, p...)
 	return len(p), nil
 }
 
@@ -131,6 +134,9 @@ func sinksMain(args []string) {
 				want, ok := tbl[map[bool]string{true: "json", false: fmtNames[cfg]}[cfg == 0]]
 				if !ok || (len(tw.writes) == 1 && string(want) != string(tw.writes[0])) {
 					oracle("C13 writer.Sink wrote %v but the table holds %v for the configured format", tw.writes, want)
+				}
+				if ok && string(tw.taken) != string(want) {
+					oracle("C13 writer.Sink reported success although its writer accepted only %d of the %d bytes of the stored value", len(tw.taken), len(want))
 				}
 			case strings.Contains(err.Error(), "writer is nil"):
 				res = "err E_NIL_WRITER"
